@@ -48,9 +48,10 @@ var wordPool = []string{"alpha", "bravo", "cargo", "delta", "ember", "frost", "g
 	"ultra", "vista", "whisk", "xenon", "yield", "zebra", "user", "http", "url", "id", "json", "api", "uuid", "ip", "xml"}
 
 // plainFieldNames are field names without a serial number (none of them Go-cases to a method of
-// the generated types; not "key" / "value": the log of a map with non-string keys has entries of
-// that name, which the C15 token extractor could not tell from fields).
-var plainFieldNames = []string{"message", "msg", "name", "code", "reason", "text", "detail", "data", "status", "cause", "info", "payload"}
+// the generated types; not "key" / "value" / "name": the log of a map with non-string keys has
+// entries called key and value, that of an enum has name and value, and the C15 token extractor
+// could not tell those from fields).
+var plainFieldNames = []string{"message", "msg", "code", "reason", "text", "detail", "data", "status", "cause", "info", "payload", "title"}
 
 // fresh returns a new identifier in a random style whose Go-cased form is unique.
 func (g *generator) fresh(style int) string {
